@@ -19,6 +19,7 @@ def get_use_tree(
     only_list: list[str] = None,
     rename_map: dict[str, str] = None,
     curr_path: list[str] = None,
+    from_outside: bool = False,
 ):
     if only_list is None:
         only_list = set()
@@ -47,7 +48,7 @@ def get_use_tree(
     new_path = curr_path + [scope.FQSN]
     # Entities that a PRIVATE module obtains by use association are passed on to
     # the users of the module only if they are declared PUBLIC there
-    if curr_path and scope.def_vis < 0:
+    if (curr_path or from_outside) and scope.def_vis < 0:
         prefix = f"{scope.FQSN}::".lower()
         public = {
             name.lower()[len(prefix) :]
